@@ -1180,7 +1180,8 @@ class Proc:
         if mc is None:
             return {'skip': 'no multichain'}
         try:
-            mc.force(op['tasks'], recompute=op.get('recompute', False), delete_data=op.get('delete', False))
+            tasks = op['tasks'] if len(op['tasks']) != 1 or not op.get('single_as_str') else op['tasks'][0]
+            mc.force(tasks, recompute=op.get('recompute', False), delete_data=op.get('delete', False))
         except Exception as e:
             return {'err': [type(e).__name__, str(e)[:300]]}
         return {'flags': {k: self.flags(ch) for k, ch in self.chains.items() if k.startswith(op['mid'] + '/')}}
